@@ -713,6 +713,32 @@ class DefTr:
                     return go('let %s := uIor %s %s' % (f, f, arg))
                 if isinstance(st.op, ast.BitAnd):
                     return go('let %s := uIand %s %s' % (f, f, arg))
+            elif isinstance(st.value, ast.SetComp) and isinstance(st.op, ast.BitOr):
+                # move-by-side-effect idiom: {NEW for v in NAMES if OLD in pairs and (not pairs.remove(OLD))}
+                sc = st.value
+                if not (len(sc.generators) == 1 and isinstance(sc.generators[0].target, ast.Name) and len(sc.generators[0].ifs) == 1):
+                    raise Decline('unsupported comprehension %s' % ast.unparse(sc))
+                g = sc.generators[0]
+                v = g.target.id
+                src = self.namelist(g.iter)
+                loc2 = dict(loc, **{v: v})
+                cond = g.ifs[0]
+                if not (isinstance(cond, ast.BoolOp) and isinstance(cond.op, ast.And) and len(cond.values) == 2):
+                    raise Decline('unsupported comprehension filter %s' % ast.unparse(cond))
+                test, rem = cond.values
+                if not (isinstance(test, ast.Compare) and len(test.ops) == 1 and isinstance(test.ops[0], ast.In)
+                        and self.field(test.comparators[0]) == 'pairs'):
+                    raise Decline('unsupported comprehension filter %s' % ast.unparse(cond))
+                oldpair = self.pair(test.left, loc2)
+                if not (isinstance(rem, ast.UnaryOp) and isinstance(rem.op, ast.Not) and isinstance(rem.operand, ast.Call)
+                        and isinstance(rem.operand.func, ast.Attribute) and rem.operand.func.attr == 'remove'
+                        and self.field(rem.operand.func.value) == 'pairs' and len(rem.operand.args) == 1
+                        and self.pair(rem.operand.args[0], loc2) == oldpair):
+                    raise Decline('unsupported comprehension filter %s' % ast.unparse(cond))
+                newpair = self.pair(sc.elt, loc2)
+                return ([ind + 'let moved := %s.filter fun %s => pairs.contains %s' % (src, v, oldpair),
+                         ind + 'let pairs := pDifference pairs (moved.map fun %s => %s)' % (v, oldpair),
+                         ind + 'let pairs := (moved.map fun %s => %s).foldl pAdd pairs' % (v, newpair)] + self.block(rest, ind, loc))
             elif ast.unparse(st.value) == 'other._pairs':
                 if isinstance(st.op, ast.BitOr):
                     return go('let pairs := other.pairs.foldl pAdd pairs')
@@ -731,6 +757,8 @@ class DefTr:
                     return go('let %s ← uMove %s %s index' % (f, f, self.name(call.args[0], loc)))
                 if meth == 'remove' and len(call.args) == 1:
                     return go('let %s ← uRemove %s %s' % (f, f, self.name(call.args[0], loc)))
+                if meth == 'replace' and len(call.args) == 2:
+                    return go('let %s ← uReplace %s %s %s' % (f, f, self.name(call.args[0], loc), self.name(call.args[1], loc)))
             else:
                 if meth in ('add', 'discard') and len(call.args) == 1:
                     return go('let pairs := %s pairs %s' % ({'add': 'pAdd', 'discard': 'pDiscard'}[meth], self.pair(call.args[0], loc)))
@@ -779,6 +807,8 @@ def gen_defn():
         ('add_property', ['self', 'prop', 'objects'], '(prop : Name) (objects : List Name)', dict(names={'prop': 'prop'}, lists={'objects': 'objects'}, bools={})),
         ('set_object', ['self', 'obj', 'properties'], '(obj : Name) (properties : List Name)', dict(names={'obj': 'obj'}, lists={'properties': 'properties'}, bools={})),
         ('set_property', ['self', 'prop', 'objects'], '(prop : Name) (objects : List Name)', dict(names={'prop': 'prop'}, lists={'objects': 'objects'}, bools={})),
+        ('rename_object', ['self', 'old', 'new'], '(old new : Name)', dict(names={'old': 'old', 'new': 'new'}, lists={}, bools={})),
+        ('rename_property', ['self', 'old', 'new'], '(old new : Name)', dict(names={'old': 'old', 'new': 'new'}, lists={}, bools={})),
         ('remove_object', ['self', 'obj'], '(obj : Name)', dict(names={'obj': 'obj'}, lists={}, bools={})),
         ('remove_property', ['self', 'prop'], '(prop : Name)', dict(names={'prop': 'prop'}, lists={}, bools={})),
         ('union_update', ['self', 'other', 'ignore_conflicts'], '(other : Defn) (ignore_conflicts : Bool)', dict(names={}, lists={}, bools={})),
